@@ -7,6 +7,7 @@
       front  = the core option first, then the invocation (opt ++ concat groups)
       placed = the option inserted before group [j], followed by "--" and a
                remainder when [rem] is given.
+      norem  = the placed line without that trailing "--" and remainder.
     [groups] are the complete units of the invocation (a task name, a flag
     with its value, a positional value), so that every [j] is a placement
     "inside a task's argument list" that does not tear a flag from its value.
@@ -214,6 +215,29 @@ Definition glued_cluster_reading (groups : list (list string)) (j : nat)
   | _ => false
   end.
 
+(** Second explicit don't-care region of the shadowing clause: the option is a
+    single bare flag token ("-p") and the active task declares that very flag as
+    one that TAKES A VALUE.  In that task's grammar the token alone is an
+    incomplete unit -- "flag value" with the NEXT token of the command line as
+    its value, as documented for value flags -- so inserting it there re-pairs
+    the task's flag with whatever follows (possibly the next task's name, whose
+    own flags are then read in another context).  The task does receive the
+    flag; what the re-pairing does to the rest of the line is not judged. *)
+Definition bare_value_reading (groups : list (list string)) (j : nat)
+           (opt : list string) (f : string) : bool :=
+  match opt with
+  | [t] =>
+      String.eqb t f &&
+      match active_task groups j None with
+      | Some c => match arg_of_flag c f with
+                  | Some a => takes_value a
+                  | None => false
+                  end
+      | None => false
+      end
+  | _ => false
+  end.
+
 Definition s3_placement (groups : list (list string)) (opt : list string) (j : nat)
            (flags : list string) (base front placed : result gobs) : bool :=
   match opt with
@@ -223,7 +247,8 @@ Definition s3_placement (groups : list (list string)) (opt : list string) (j : n
         (* "unless that task declares a flag of the same name (which then receives it)":
            the core values are those of the line without the option *)
         match flags, base, placed with
-        | [f], Ok _, Ok _ => glued_cluster_reading groups j opt f || same_core placed base
+        | [f], Ok _, Ok _ => glued_cluster_reading groups j opt f || bare_value_reading groups j opt f
+                             || same_core placed base
         | _, _, _ => true
         end
       else
@@ -258,14 +283,36 @@ Definition s3_placement (groups : list (list string)) (opt : list string) (j : n
         end
   end.
 
+(** S4. "... and influences nothing else."  [norem] is the observation of the
+    very same command line without the trailing ["--" :: rem] (for [rem = None]
+    it is the placed line itself).  Appending a remainder changes nothing but
+    [remainder]: same core values, same unparsed tokens, same task calls; a line
+    that is rejected stays rejected with the same class of error, a line that
+    parses still parses -- whatever the last token before "--" is (a bare
+    optional-value flag, a flag still waiting for its value, nothing at all)
+    and whatever the remainder tokens look like (task names, flags, "--"). *)
+Definition s4_remainder_inert (rem : option (list string)) (norem placed : result gobs) : bool :=
+  match rem with
+  | None => true
+  | Some _ =>
+      match norem, placed with
+      | Ok a, Ok b => kwargs_eqb (g_core a) (g_core b)
+                      && list_eqb String.eqb (g_unparsed a) (g_unparsed b)
+                      && list_eqb octx_eqb (g_tasks a) (g_tasks b)
+      | Err e1, Err e2 => err_eqb e1 e2
+      | _, _ => false
+      end
+  end.
+
 Definition spec_ok (groups : list (list string)) (opt : list string) (j : nat)
            (flags : list string) (rem : option (list string))
-           (base front placed : result gobs) : bool :=
+           (base front norem placed : result gobs) : bool :=
   let argv := placed_argv groups opt j rem in
   match placed with
   | Ok o => s1_remainder argv o && s2_unparsed_intact argv o
   | Err _ => true
   end
-  && s3_placement groups opt j flags base front placed.
+  && s3_placement groups opt j flags base front placed
+  && s4_remainder_inert rem norem placed.
 
 End Spec.
